@@ -71,6 +71,7 @@ class Engine:
         self.specs = {}
         self.native_ns = {}
         self.native_imports = {}
+        self.native_hooks = []
         try:
             import infinity
 
@@ -199,10 +200,20 @@ class Engine:
             self.native_ns[name] = native
         return sf
 
-    def axiom(self, name, text, note=None):
+    def spec_fact(self, spec_name, fact_name, text):
+        """A fact about a spec function, over its parameters; instantiated like the definition."""
+        sf = self.specs[spec_name]
+        st = State()
+        for n, p in sf.params:
+            st.env[n] = SV(smt.Var(n, self.tenv.sort(p)), p)
+        fx = FnExec(self, None, None, spec_mode=True)
+        t = self.ops.term(fx.eval(parse_expr(text), st), BOOL)
+        self.ctx.specs[spec_name].facts.append((fact_name, t))
+
+    def axiom(self, name, text, note=None, keys=None):
         fx = FnExec(self, None, None, spec_mode=True)
         t = self.ops.term(fx.eval(parse_expr(text), State()), BOOL)
-        self.ctx.add_axiom(name, t)
+        self.ctx.add_axiom(name, t, keys=keys)
         if not hasattr(self, "axiom_texts"):
             self.axiom_texts = {}
         self.axiom_texts[name] = " ".join(text.split())
